@@ -6,6 +6,7 @@ import (
 	"os"
 	"path/filepath"
 	"regexp"
+	"runtime"
 	"sort"
 	"strconv"
 	"strings"
@@ -43,6 +44,9 @@ import (
 // When the launcher pause is set, a successful Launch that took less than the pause means the hook is gone
 // (harness error "hook missing": the forced schedule is not achieved).
 //
+// done-goroutine / done-locked-goroutine / handler-locked-goroutine: Done() is called from a fresh goroutine while the
+// handler waits, from a goroutine wired to its own OS thread, or the whole handler runs on such a goroutine (the main
+// goroutine of this binary is locked to the main OS thread, so these calls are on another thread for certain).
 // More handler variants: exit / panic — the daemon dies before Done(): Launch must return an error in time and leave no
 // daemon running (what the code does: "daemon: exit status N" from the launcher's stderr; the value returned beside the
 // error is not judged), and the launches that FOLLOW it in this process must
@@ -66,6 +70,9 @@ const (
 )
 
 func init() {
+	// the main goroutine keeps the process's main OS thread: "Done() called directly" is then on the main thread, and
+	// the goroutine variants are certainly on another one
+	runtime.LockOSThread()
 	daemon.Register(handlerA, func() { c20Daemon(handlerA) })
 	daemon.Register(handlerB, func() { c20Daemon(handlerB) })
 }
@@ -167,6 +174,22 @@ func c20Daemon(self string) {
 			}
 		}
 	}
+	if variant == "handler-locked-goroutine" {
+		// the whole handler runs on a goroutine of its own that is wired to an OS thread (not the process's main
+		// thread: the main goroutine stays locked to that one, see init)
+		fin := make(chan struct{})
+		go func() {
+			defer close(fin)
+			runtime.LockOSThread()
+			c20Body(self, dir, delayStr, "handler-locked-goroutine")
+		}()
+		<-fin
+		return
+	}
+	c20Body(self, dir, delayStr, variant)
+}
+
+func c20Body(self, dir, delayStr, variant string) {
 	pid := os.Getpid()
 	life := 20 * time.Second // everything needed from the environment is read before a variant scrubs it
 	if d, err := time.ParseDuration(os.Getenv(envLife)); err == nil && d > 0 {
@@ -198,7 +221,24 @@ func c20Daemon(self string) {
 	if dir != "" {
 		os.WriteFile(filepath.Join(dir, fmt.Sprintf("predone.%d", pid)), []byte(fmt.Sprintf("%d\n", time.Now().UnixNano())), 0o644)
 	}
-	derr := daemon.Done()
+	// which goroutine / OS thread calls Done() is the handler's business: directly, from a fresh goroutine while the
+	// handler waits, or from a goroutine wired to its own OS thread
+	var derr error
+	switch variant {
+	case "done-goroutine":
+		ch := make(chan error, 1)
+		go func() { ch <- daemon.Done() }()
+		derr = <-ch
+	case "done-locked-goroutine":
+		ch := make(chan error, 1)
+		go func() {
+			runtime.LockOSThread()
+			ch <- daemon.Done()
+		}()
+		derr = <-ch
+	default:
+		derr = daemon.Done()
+	}
 	if dir != "" {
 		msg := "ok"
 		if derr != nil {
@@ -570,6 +610,13 @@ func runC20(e *hk.Env) error {
 			for _, n := range conc[:min(2, len(conc))] {
 				scenarios = append(scenarios, scenario{delays[0], pauses[0], n, v, false, ""})
 			}
+		}
+		// Done() called from another goroutine / OS thread than the handler's
+		for _, v := range []string{"done-goroutine", "done-locked-goroutine", "handler-locked-goroutine"} {
+			for _, n := range conc[:min(2, len(conc))] {
+				scenarios = append(scenarios, scenario{delays[0], pauses[0], n, v, false, ""})
+			}
+			scenarios = append(scenarios, scenario{delays[len(delays)/2], pauses[len(pauses)-1], 1, v, false, ""})
 		}
 		// sequences in one goroutine: launches that fail (daemon dies before Done()) followed by normal ones
 		seq := []string{"exit", "none", "panic", "none", "none", "exit", "exit", "none", "unsetenv", "panic", "after", "none"}
